@@ -1122,6 +1122,15 @@ theorem pre_stepCore {s : S} (h : Pre s) (op : Op) : Pre (stepCore s op) := by
   | cast a v =>
     simp only [stepCore]
     exact pre_ext h _ (Ext.modify s.actors a v)
+  | fail a =>
+    simp only [stepCore]
+    cases s.actors[a]? with
+    | none => exact h
+    | some x =>
+      simp only
+      split
+      · exact pre_exit h a
+      · exact h
 
 end Rpc
 
@@ -1545,6 +1554,15 @@ theorem own_stepCore {s : S} (hp : Pre s) (h : Own s) (op : Op) : Own (stepCore 
       · exact h
   | supexit u => exact own_supExit h u
   | cast a v => exact own_calls_eq h rfl
+  | fail a =>
+    simp only [stepCore]
+    cases s.actors[a]? with
+    | none => exact h
+    | some x =>
+      simp only
+      split
+      · exact own_exit h a
+      · exact h
 
 end Rpc
 
@@ -1929,6 +1947,15 @@ theorem wire_stepCore {s : S} (hp : Pre s) (h : Wire s) (op : Op) : Wire (stepCo
       · exact wire_killChildren (wire_sweep h _) u
       · exact h
   | cast a v => exact wire_frame h rfl rfl
+  | fail a =>
+    simp only [stepCore]
+    cases s.actors[a]? with
+    | none => exact h
+    | some x =>
+      simp only
+      split
+      · exact wire_exit h a
+      · exact h
 
 theorem wire_resolveLocal {s : S} (h : Wire s) : Wire (resolveLocal s) :=
   wire_map h (resolveCall s.now) rfl rfl (resolveCall_rx s.now) (fun c v => by rw [resolveCall_loc])
